@@ -234,7 +234,7 @@ def run(check: core.Check) -> None:
     deep = core.emitted_json(results["format:deep"])
     results["format:deep"].stdout = ""
     model_cases["format-deep-nesting"] = len(deep)
-    deep, ex_all = _sample(rnd, deep, 5000 if quick else 40000)
+    deep, ex_all = _sample(rnd, deep, 5000 if quick else 80000)
     exhaustive = exhaustive and ex_all
     judge(check, "format", deep, "tlc-exhaustive:" + jobs["format:deep"]["cfg"])
     if not quick:
